@@ -23,10 +23,23 @@ theorem crawlSrc_crawled {p : Path} {s : Src} (h : crawlSrc fs o p = .ok s) : Cr
 theorem crawled_some {s : Src} {B : Path} (h : Crawled fs o s) (hb : s.base = some B) :
     crawlUp fs o s.path = .some s.module B := by
   unfold Crawled crawlSrc at h
-  split at h
-  · next m b hc => cases h; simp only [Option.some.injEq] at hb; subst hb; exact hc
-  · cases h
-  · cases h; cases hb
+  cases hc : crawlUp fs o s.path with
+  | some m b =>
+    rw [hc] at h
+    simp only [Except.ok.injEq] at h
+    have h1 := congrArg Src.module h
+    have h2 := congrArg Src.base h
+    simp only at h1 h2
+    rw [hb] at h2
+    simp only [Option.some.injEq] at h2
+    rw [h1, h2]
+  | err n => rw [hc] at h; cases h
+  | none =>
+    rw [hc] at h
+    simp only [Except.ok.injEq] at h
+    have h2 := congrArg Src.base h
+    simp only at h2
+    rw [hb] at h2; cases h2
 
 theorem crawled_of_crawlUp {p : Path} {m : List Name} {B : Path} (h : crawlUp fs o p = .some m B) :
     crawlSrc fs o p = .ok { path := p, module := m, base := some B } := by
@@ -102,14 +115,19 @@ theorem sourcesOfArg_ok {fuel : Nat} {p : Path} {l : List Src} (h : sourcesOfArg
       exact Or.inl (crawlSrc_crawled fs o hc)
   · next hnp =>
     split at h
-    · split at h
-      · cases h
-      · cases h
-      · next l' hl _ =>
-        cases h
-        intro s hs
-        exact Or.inl (findSourcesInDir_crawled fs o _ _ _ hl s hs)
-    · cases h
+    · cases hfs : findSourcesInDir fs o fuel p with
+      | error e => rw [hfs] at h; cases h
+      | ok l' =>
+        rw [hfs] at h
+        cases l' with
+        | nil => cases h
+        | cons s0 ss =>
+          simp only [Except.ok.injEq] at h
+          subst h
+          intro s hs
+          exact Or.inl (findSourcesInDir_crawled fs o _ _ _ hfs s hs)
+    · simp only [Except.ok.injEq] at h
+      subst h
       intro s hs
       simp only [List.mem_singleton] at hs
       subst hs
